@@ -84,6 +84,8 @@ def cmd_confirm(prop, n, wt):
     rel = demo_dest(prop, n, crate, demo)
     dest = os.path.join(wt, rel)
     reg = os.path.join(sd(prop, n), "demo_register.diff")
+    if not os.path.exists(reg):
+        reg = os.path.join(sd(prop, n), "demo_hook.diff")
     run("git checkout -- . && git clean -fdq -e target", wt)
     os.makedirs(os.path.dirname(dest), exist_ok=True)
     res = {"worktree": wt, "demo_placed_at": rel, "at": time.strftime("%Y-%m-%dT%H:%M:%SZ", time.gmtime())}
@@ -124,8 +126,13 @@ def cmd_check(prop, n, extra):
         print("patch does not apply to /repo:", out_a)
         return
     touched = subprocess.run(["git", "apply", "--numstat", patch], cwd="/repo", capture_output=True, text=True).stdout.split()[2::3]
+    run_as = prop.upper()
+    if "--as" in extra:
+        i = extra.index("--as")
+        run_as = extra[i + 1].upper()
+        extra = extra[:i] + extra[i + 2:]
     try:
-        cmd = ["./check", prop.upper()] + extra
+        cmd = ["./check", run_as] + extra
         rc, out, t = run(cmd, VERIF)
     finally:
         run(["git", "checkout", "--"] + touched, "/repo")
